@@ -337,6 +337,223 @@ Qed.
 
 End Replay.
 
+(* ---------- errors: which ones the replay may hand to the service *)
+Lemma src_read_aerr n src d e src' :
+  src_read n src = (d, e, src') ->
+  (d <> [] -> e = aerr src (length d)) /\
+  (forall j, (0 < j)%nat -> aerr src' j = aerr src (length d + j)).
+Proof.
+  unfold src_read. destruct n as [|n].
+  - intros [= <- <- <-]. split; [congruence|]. intros j Hj. reflexivity.
+  - destruct src as [|it sc].
+    + intros [= <- <- <-]. split; [congruence|]. intros j Hj. reflexivity.
+    + remember (S n) as k eqn:Ek.
+      destruct (Nat.leb (length (it_data it)) k) eqn:E; intros [= <- <- <-].
+      * split.
+        -- intros Hd. cbn [aerr].
+           assert (length (it_data it) <> 0)%nat as Hl by (destruct (it_data it); [congruence | simpl; lia]).
+           apply Nat.eqb_neq in Hl. rewrite Hl, Nat.ltb_irrefl, Nat.eqb_refl. reflexivity.
+        -- intros j Hj. cbn [aerr].
+           assert (Nat.eqb (length (it_data it) + j) 0 = false) as -> by (apply Nat.eqb_neq; lia).
+           destruct (Nat.eqb (length (it_data it)) 0) eqn:E0.
+           ++ apply Nat.eqb_eq in E0. rewrite E0. reflexivity.
+           ++ apply Nat.eqb_neq in E0.
+              assert (Nat.ltb (length (it_data it) + j) (length (it_data it)) = false) as -> by (apply Nat.ltb_ge; lia).
+              assert (Nat.eqb (length (it_data it) + j) (length (it_data it)) = false) as -> by (apply Nat.eqb_neq; lia).
+              f_equal. lia.
+      * apply Nat.leb_gt in E.
+        assert (length (firstn k (it_data it)) = k) as Lk by (rewrite firstn_length; lia).
+        rewrite Lk. split.
+        -- intros _. cbn [aerr].
+           assert (Nat.eqb k 0 = false) as -> by (apply Nat.eqb_neq; lia).
+           assert (Nat.eqb (length (it_data it)) 0 = false) as -> by (apply Nat.eqb_neq; lia).
+           assert (Nat.ltb k (length (it_data it)) = true) as -> by (apply Nat.ltb_lt; lia). reflexivity.
+        -- intros j Hj. cbn [aerr it_data it_err]. rewrite skipn_length.
+           assert (Nat.eqb j 0 = false) as -> by (apply Nat.eqb_neq; lia).
+           assert (Nat.eqb (k + j) 0 = false) as -> by (apply Nat.eqb_neq; lia).
+           assert (Nat.eqb (length (it_data it) - k) 0 = false) as -> by (apply Nat.eqb_neq; lia).
+           assert (Nat.eqb (length (it_data it)) 0 = false) as -> by (apply Nat.eqb_neq; lia).
+           destruct (Nat.ltb j (length (it_data it) - k)) eqn:E1.
+           ++ apply Nat.ltb_lt in E1.
+              assert (Nat.ltb (k + j) (length (it_data it)) = true) as -> by (apply Nat.ltb_lt; lia). reflexivity.
+           ++ apply Nat.ltb_ge in E1.
+              assert (Nat.ltb (k + j) (length (it_data it)) = false) as -> by (apply Nat.ltb_ge; lia).
+              destruct (Nat.eqb j (length (it_data it) - k)) eqn:E2.
+              ** apply Nat.eqb_eq in E2.
+                 assert (Nat.eqb (k + j) (length (it_data it)) = true) as -> by (apply Nat.eqb_eq; lia). reflexivity.
+              ** apply Nat.eqb_neq in E2.
+                 assert (Nat.eqb (k + j) (length (it_data it)) = false) as -> by (apply Nat.eqb_neq; lia).
+                 f_equal. lia.
+Qed.
+
+Section Errs.
+Variable sc0 : script.
+
+(* the rest of the script lines up with the original one, [c] bytes in *)
+Definition aligned (c : nat) (src : script) : Prop :=
+  forall j, (0 < j)%nat -> aerr sc0 (c + j) = aerr src j.
+
+(* sniff phase: lastErr is the error that came with the last buffered byte *)
+Definition linv (s : sniffer) : Prop :=
+  aligned (length (sn_buf s)) (sn_src s) /\
+  (sn_buf s <> [] -> sn_lasterr s = aerr sc0 (length (sn_buf s))).
+
+Lemma linv_new : linv (new_sniffer sc0).
+Proof. split; [intros j Hj; reflexivity | cbn; congruence]. Qed.
+
+Lemma linv_reset b s : linv s -> linv (reset b s).
+Proof. intros H. exact H. Qed.
+
+Lemma linv_read fx n s r s' :
+  sn_sniffing s = true -> linv s -> sniffer_read fx n s = (r, s') ->
+  linv s' /\ sn_sniffing s' = true.
+Proof.
+  intros Hsn [Hal Hle] H.
+  destruct s as [src buf rd size snf le dir]. proj. subst snf.
+  unfold sniffer_read in H; proj.
+  destruct (Nat.ltb rd size).
+  - destruct (Nat.leb size (length buf)); injection H as _ <-; split; try reflexivity; split; assumption.
+  - cbn [negb andb] in H.
+    destruct (src_read n src) as [[d e] src'] eqn:ES.
+    apply src_read_aerr in ES as [He Hj].
+    destruct (Nat.ltb 0 (length d)) eqn:Ed; cbn [andb] in H; injection H as _ <-; (split; [|reflexivity]).
+    + apply Nat.ltb_lt in Ed. assert (d <> []) as Hd by (destruct d; [simpl in Ed; lia | congruence]).
+      unfold linv; proj. rewrite app_length. split.
+      * intros j Hj0. rewrite <- Nat.add_assoc, (Hal (length d + j)%nat) by lia. symmetry. apply Hj. exact Hj0.
+      * intros _. rewrite (He Hd). symmetry. apply Hal. exact Ed.
+    + apply Nat.ltb_ge in Ed. assert (d = []) as -> by (destruct d; [reflexivity | simpl in Ed; lia]).
+      unfold linv; proj. split; [|exact Hle].
+      intros j Hj0. rewrite (Hal j Hj0). symmetry. apply (Hj j Hj0).
+Qed.
+
+Lemma matcher_reads_linv fx sizes : forall s rs s',
+  sn_sniffing s = true -> linv s -> matcher_reads fx sizes s = (rs, s') ->
+  linv s' /\ sn_sniffing s' = true.
+Proof.
+  induction sizes as [|n sizes IH]; intros s rs s' Hsn Hl H; cbn in H.
+  - injection H as _ <-. auto.
+  - destruct (sniffer_read fx n s) as [r s1] eqn:ER.
+    destruct (linv_read _ _ _ _ _ Hsn Hl ER) as [Hl1 Hsn1].
+    destruct r.
+    + destruct (matcher_reads fx sizes s1) as [rs2 s2] eqn:EM. injection H as _ <-. eapply IH; eauto.
+    + injection H as _ <-. auto.
+Qed.
+
+Lemma sessions_run_linv fx sessions : forall s ms s',
+  linv s -> sessions_run fx sessions s = (ms, s') -> linv s'.
+Proof.
+  induction sessions as [|sz rest IH]; intros s ms s' Hl H; cbn in H.
+  - injection H as _ <-. exact Hl.
+  - destruct (matcher_reads fx sz (reset true s)) as [rs s1] eqn:EM.
+    destruct (sessions_run fx rest s1) as [rss s2] eqn:ES. injection H as _ <-.
+    assert (sn_sniffing (reset true s) = true) as Hsn by reflexivity.
+    destruct (matcher_reads_linv _ _ _ _ _ Hsn (linv_reset true _ Hl) EM) as [Hl1 _].
+    eapply IH; eauto.
+Qed.
+
+(* service phase: while sniffed bytes are withheld, lastErr is the error that
+   came with the last of them *)
+Definition slinv (s : sniffer) : Prop :=
+  pending s <> [] -> sn_lasterr s = aerr sc0 (length (stream sc0) - remaining s).
+
+Lemma slinv_start s : base (stream sc0) s -> linv s -> slinv (reset false s).
+Proof.
+  intros [Hd Hb] [_ Hle]. unfold slinv, pending, remaining, reset; cbn. rewrite Hd.
+  rewrite Nat.sub_0_r, firstn_all. intros Hne. rewrite (Hle Hne). f_equal.
+  rewrite <- Hb, app_length. unfold stream. lia.
+Qed.
+
+Lemma conn_read_replay n s D d e s' :
+  sinv (stream sc0) s D -> conn_read true n s = (ROk d e, s') ->
+  (pending s <> [] -> sn_src s' = sn_src s /\ sn_lasterr s' = sn_lasterr s /\
+                      (e = 0 \/ (e = sn_lasterr s /\ pending s' = []))) /\
+  (pending s = [] -> pending s' = []).
+Proof.
+  intros (Hsn & Hst & Hfull) H.
+  destruct s as [src buf rd size snf le dir]. proj. subst snf.
+  unfold conn_read in H; proj. destruct dir.
+  - destruct (src_read n src) as [[d0 e0] src']. injection H as _ _ <-.
+    unfold pending; proj. split; [congruence | reflexivity].
+  - unfold sniffer_read in H; proj. unfold pending in *; proj.
+    destruct (Nat.ltb rd size) eqn:E.
+    + apply Nat.ltb_lt in E. specialize (Hfull eq_refl E). subst size.
+      rewrite Nat.leb_refl in H. injection H as <- <- <-. proj. cbn [andb].
+      split.
+      * intros _. split; [reflexivity|]. split; [reflexivity|].
+        destruct (Nat.ltb (rd + length (firstn n (firstn (length buf - rd) (skipn rd buf)))) (length buf)) eqn:E2.
+        -- left; reflexivity.
+        -- right. split; [reflexivity|]. apply Nat.ltb_ge in E2.
+           replace (length buf - (rd + length (firstn n (firstn (length buf - rd) (skipn rd buf)))))%nat with 0%nat by lia.
+           reflexivity.
+      * intros Hp. exfalso. apply (f_equal (@length Z)) in Hp.
+        rewrite firstn_length, skipn_length in Hp. simpl in Hp. lia.
+    + apply Nat.ltb_ge in E. replace (size - rd)%nat with 0%nat in * by lia. cbn [firstn] in *.
+      split; [congruence|]. intros _.
+      cbv zeta in H. cbn [negb andb] in H.
+      destruct (src_read n src) as [[d0 e0] src']. rewrite andb_false_r in H. injection H as _ _ <-. proj.
+      replace (size - rd)%nat with 0%nat by lia.
+      destruct (if negb (is_nil buf) then true else false); reflexivity.
+Qed.
+
+Lemma service_reads_errs_ok sizes : forall s D rs s',
+  sinv (stream sc0) s D -> slinv s -> service_reads true sizes s = (rs, s') ->
+  ok_errs sc0 (length (stream sc0)) (length D) (length (stream sc0) - remaining s) rs = true.
+Proof.
+  induction sizes as [|n sizes IH]; intros s D rs s' Hi Hsl H; cbn in H.
+  - injection H as <- _. reflexivity.
+  - destruct (conn_read true n s) as [r s1] eqn:ER.
+    destruct (sinv_read _ _ _ _ _ _ _ Hi ER) as (d & e & -> & Hi1 & _).
+    destruct (conn_read_replay _ _ _ _ _ _ Hi ER) as [Hrep Hnil].
+    destruct (service_reads true sizes s1) as [rs2 s2] eqn:ES. injection H as <- _.
+    pose proof Hi as (_ & Hst & _). pose proof Hi1 as (_ & Hst1 & _).
+    assert (length (stream sc0) = (length D + length (pending s) + remaining s)%nat) as L0.
+    { rewrite <- Hst at 1. rewrite !app_length. unfold remaining. lia. }
+    assert (length (stream sc0) = (length D + length d + length (pending s1) + remaining s1)%nat) as L1.
+    { rewrite <- Hst1 at 1. rewrite !app_length. unfold remaining. lia. }
+    cbn [ok_errs]. apply andb_true_iff. split.
+    + destruct (Nat.ltb (length D) (length (stream sc0) - remaining s)) eqn:Ep; [|reflexivity].
+      apply Nat.ltb_lt in Ep.
+      assert (pending s <> []) as NE by (intros C; rewrite C in L0; simpl in L0; lia).
+      destruct (Hrep NE) as (Hsrc & Hle & [He|[He Hp1]]).
+      * rewrite He. reflexivity.
+      * apply orb_true_iff. right. apply andb_true_iff. split.
+        -- apply Nat.eqb_eq. rewrite Hp1 in L1. simpl in L1. lia.
+        -- rewrite He, (Hsl NE). unfold remaining. rewrite Hsrc. apply Z.eqb_refl.
+    + rewrite <- app_length. apply (IH s1 (D ++ d) rs2 s2 Hi1); [|exact ES].
+      intros NE1.
+      assert (pending s = [] \/ pending s <> []) as [Hp|NE]
+        by (destruct (pending s); [left; reflexivity | right; discriminate]).
+      * rewrite (Hnil Hp) in NE1. congruence.
+      * destruct (Hrep NE) as (Hsrc & Hle & _). rewrite Hle, (Hsl NE). unfold remaining. rewrite Hsrc. reflexivity.
+Qed.
+
+End Errs.
+
+(* with every error coming without bytes, nothing is attached to any byte *)
+Lemma aerr_data_errfree sc : data_errfree sc = true -> forall k, aerr sc k = 0.
+Proof.
+  induction sc as [|it sc IH]; intros H k; [reflexivity|].
+  cbn [data_errfree forallb] in H. apply andb_true_iff in H as [Hit Hs].
+  cbn [aerr]. destruct (Nat.eqb k 0); [reflexivity|].
+  destruct (Nat.eqb (length (it_data it)) 0) eqn:E0; [apply IH; exact Hs|].
+  destruct (Nat.ltb k (length (it_data it))); [reflexivity|].
+  destruct (Nat.eqb k (length (it_data it))).
+  - apply orb_true_iff in Hit as [Hn|He]; [|apply Z.eqb_eq; exact He].
+    destruct (it_data it); [discriminate E0 | discriminate Hn].
+  - apply IH; exact Hs.
+Qed.
+
+Lemma ok_errs_replayed_zero sc total : (forall k, aerr sc k = 0) -> forall rs dl pc,
+  ok_errs sc total dl pc rs = true -> Forall (fun e => e = 0) (replayed_errs total dl pc rs).
+Proof.
+  intros Hz. induction rs as [|r rs IH]; intros dl pc H; [constructor|].
+  destruct r as [d e rem|]; [|constructor]. cbn [ok_errs replayed_errs] in *.
+  apply andb_true_iff in H as [H1 H2]. apply Forall_app. split; [|apply IH; exact H2].
+  destruct (Nat.ltb dl pc); [|constructor]. constructor; [|constructor].
+  apply orb_true_iff in H1 as [H1|H1]; [apply Z.eqb_eq; exact H1|].
+  apply andb_true_iff in H1 as [_ H1]. apply Z.eqb_eq in H1. rewrite Hz in H1. exact H1.
+Qed.
+
 (* the script only shrinks while sniffing *)
 Lemma sniffer_read_len fx n s r s' :
   sniffer_read fx n s = (r, s') -> (length (sn_src s') <= length (sn_src s))%nat.
@@ -442,8 +659,58 @@ Proof.
   destruct Hi as (_ & Hst & _). cbn [app] in Hst.
   assert (length (stream sc) = (length (pending (reset false s1)) + remaining (reset false s1))%nat) as L.
   { rewrite <- Hst at 1. rewrite app_length. reflexivity. }
-  apply andb_true_iff. split; [apply Nat.leb_le; lia|].
-  cbn [length] in Hok. exact Hok.
+  pose proof (sessions_run_linv sc true sessions _ _ _ (linv_new sc) E1) as Hlv.
+  pose proof (service_reads_errs_ok sc svc _ _ _ _ (sinv_start _ _ Hb) (slinv_start sc _ Hb Hlv) E2) as Herr.
+  cbn [length] in Hok, Herr. rewrite Hok, Herr, !andb_true_r. apply Nat.leb_le; lia.
+Qed.
+
+(* errors consumed while sniffing that came with no bytes — a sniff deadline
+   that fired and was followed by more data, an EOF — are not replayed: every
+   read of the service that is answered from the replay buffer reports no error *)
+Theorem sniff_timeout_not_replayed : forall sc sessions svc ms rem0 rs s3,
+  sniff_run true sc sessions svc = (ms, rem0, rs, s3) ->
+  data_errfree sc = true ->
+  Forall (fun e => e = 0) (replayed_errs (length (stream sc)) 0 (length (stream sc) - rem0) rs).
+Proof.
+  intros sc sessions svc ms rem0 rs s3 H Hd.
+  pose proof (sniff_model_passes _ _ _ _ _ _ _ H) as Hok.
+  unfold ok_sniff, ok_service in Hok.
+  apply andb_true_iff in Hok as [_ Hok]. apply andb_true_iff in Hok as [_ Hok].
+  eapply ok_errs_replayed_zero; [apply aerr_data_errfree; exact Hd | exact Hok].
+Qed.
+
+(* … while a terminal condition is still reported: once everything has been
+   delivered and the script is exhausted, the next read returns (0, EOF) *)
+Theorem terminal_eof_after_last_byte : forall fx sc sessions svc ms rem0 rs s3 n,
+  sniff_run fx sc sessions svc = (ms, rem0, rs, s3) ->
+  Forall (fun n => (0 < n)%nat) svc ->
+  (length (stream sc) + length sc <= length svc)%nat ->
+  fst (conn_read fx (S n) s3) = ROk [] EOF.
+Proof.
+  intros fx sc sessions svc ms rem0 rs s3 n H Hpos Hlen.
+  unfold sniff_run in H.
+  destruct (sessions_run fx sessions (new_sniffer sc)) as [ms' s1] eqn:E1.
+  destruct (service_reads fx svc (reset false s1)) as [rs' s3'] eqn:E2.
+  injection H as _ _ _ <-.
+  destruct (sessions_run_inv (stream sc) fx sessions _ _ _ (base_new _ sc eq_refl) E1) as (Hb & _ & _).
+  pose proof (sinv_start _ _ Hb) as Hi.
+  pose proof (sessions_run_len _ _ _ _ _ E1) as Hl1. cbn [new_sniffer sn_src] in Hl1.
+  assert (todo (reset false s1) <= length (stream sc) + length sc)%nat as Hbound.
+  { destruct Hi as (_ & Hst & _). cbn [app] in Hst. apply (f_equal (@length Z)) in Hst.
+    rewrite app_length in Hst. unfold todo. cbn [reset sn_src] in *. lia. }
+  destruct (service_reads_replay (stream sc) fx svc _ _ _ _ Hi E2) as (Hi3 & _ & _).
+  assert (pending s3' = [] /\ sn_src s3' = []) as [Hp Hs].
+  { destruct (service_reads_drain (stream sc) fx svc _ _ _ _ Hi Hpos E2) as [Hk|Hd]; [|exact Hd].
+    assert (todo s3' = 0)%nat as Hz by lia. unfold todo in Hz.
+    split; apply length_zero_iff_nil; lia. }
+  destruct Hi3 as (Hsn & _ & Hfull).
+  destruct s3' as [src buf rd size snf le dir]. proj. subst src snf.
+  unfold conn_read; proj. destruct dir; [reflexivity|].
+  unfold sniffer_read; proj. unfold pending in Hp; proj.
+  destruct (Nat.ltb rd size) eqn:E.
+  - exfalso. apply Nat.ltb_lt in E. specialize (Hfull eq_refl E). subst size.
+    apply (f_equal (@length Z)) in Hp. rewrite firstn_length, skipn_length in Hp. simpl in Hp. lia.
+  - cbn. destruct (is_nil buf); reflexivity.
 Qed.
 
 (* the original code: an error attached to the last sniffed read is returned
